@@ -46,6 +46,17 @@ def gen(tier, rng):
         for level in (1, 2, 3):
             for lbuf in (5, 6):
                 add(api=api, inp=inp, level=level, wrap=1, lbuf=lbuf, calls=[[120, 1000, 0, 1]], cap=1, meta={"family": "invalid-level-buf"})
+    # streaming call with a flush request and EVERY output size: whatever is still to be written when the space runs out
+    # (header, body, end-of-block, flush marker, trailer) must not spill past avail_out (the chunk ends at a guard page)
+    for cls, n in [("text", 300), ("random", 90)] + ([("runs", 700), ("zeros", 300)] if tier == "thorough" else []):
+        inp = igz.corpus(rng, cls, n)
+        for level in range(4):
+            for flush in (1, 2, 0):
+                top = bound(n, 1) + 12
+                for ao in range(0, top):
+                    if tier == "quick" and flush == 0 and ao % 3: continue
+                    add(api="deflate", inp=inp, level=level, wrap=[0, 1, 3][(level + flush) % 3], lbuf=3, table=[0, 1][ao % 2] if level == 0 else 0,
+                        calls=[[n, ao, flush, 1 if flush == 0 else 0], [0, 1 << 16, flush, 1 if flush == 0 else 0]], tail_ai=n, tail_ao=1 << 16, cap=200, meta={"family": "stream-every-output-size", "cls": cls})
     # streaming termination with end_of_stream set: any sequence of non-empty output buffers
     for cls, n in [("random", 700), ("text", 900), ("empty", 0), ("zeros", 5000)] + ([("random", 70000), ("records", 9000)] if tier == "thorough" else []):
         inp = igz.corpus(rng, cls, n)
@@ -72,6 +83,7 @@ def run(tier, replay=None):
     ok_over = sum(1 for s in scns if s["meta"]["family"].startswith("oneshot") and by[s["scn"]]["calls"] and by[s["scn"]]["calls"][0]["ret"] == -1)
     cov = {"states": len(scns), "transitions": summ.get("calls", 0), "traces_validated_against_impl": len(scns), "evaluations": len(scns),
            "distinct_nontrivial": len(scns) - fam.get("invalid-level", 0), "families": fam, "oneshot_overflow_reports": ok_over,
+           "state_machine_conformance": {"model": "spec/DeflateStreamOps.tla (tabulated by spec/gen/GenDeflateStream.tla)", "calls_not_in_model": igz.drift_count(res)},
            "rule": "one-shot: for each (input incl. empty/incompressible/65535*j+-1, level, wrapper, flush) every avail_out in 0..Bound+16 for small inputs (a window around Bound for large), output flush against an inaccessible page; rules S1-S4 of TraceDeflate.tla: "
                    "no write beyond avail_out, counters = pointer advances, avail_out >= Bound => COMP_OK, OK => total_out <= Bound and a complete decodable stream, otherwise STATELESS_OVERFLOW; invalid level/flush/level_buf => negative return and zero bytes consumed/produced; "
                    "streaming with end_of_stream and output chunks from {1,2,3,7,8,9,16,17,...}: END within the call cap, every call rule D1-D10; Bound(n,w)=n+5*max(1,ceil(n/65535))+hdr+trl is defined in the spec",
